@@ -2,6 +2,8 @@
 
 Stages: P  Lean: Model/MtEnc.lean (labelled transition system of stream_encoder_mt.c at critical-section granularity),
            Props/C08.lean (invariants, order, output, flush/barrier, progress, deadlock freedom, wake-ups, re-init/end safety)
+           incl. the abstract Block encoder instantiated with the container + LZMA2 encoder models (Lemmas/MtEncJ,K):
+           mtenc_output_decodes_std = end-to-end round trip through xzDecode stdEnv via C01E2E (imports Props/C01EndToEndAll)
         B  ASan+UBSan build of /repo, harness c08s (controlled scheduler harness/vsched.c) and c08 (real scheduling with a seeded
            perturbation layer); thorough: the same under ThreadSanitizer
         K  (1) DIRECT ORACLE on the real code, independent of Lean (see harness/c08_main.c): one valid Stream, Blocks in input
